@@ -140,7 +140,7 @@ func (g *Generator) NewSchemaRefForValue(value any, schemas openapi3.Schemas) (*
 		}
 
 		if _, ok := g.componentSchemaRefs[refName]; ok && schemas != nil {
-			if ref.Value != nil && ref.Value.Properties != nil {
+			if ref.Value != nil && (ref.Value.Properties != nil || ref.Value.Items != nil || ref.Value.AdditionalProperties.Schema != nil) {
 				schemas[refName] = &openapi3.SchemaRef{
 					Value: ref.Value,
 				}
@@ -453,16 +453,19 @@ func (g *Generator) generateTypeName(t reflect.Type) string {
 
 func (g *Generator) generateCycleSchemaRef(t reflect.Type, schema *openapi3.Schema) *openapi3.SchemaRef {
 	var typeName string
-	switch t.Kind() {
-	case reflect.Ptr:
+	switch kind := t.Kind(); {
+	case kind == reflect.Ptr:
 		return g.generateCycleSchemaRef(t.Elem(), schema)
-	case reflect.Slice:
+	case (kind == reflect.Slice || kind == reflect.Map) && t.Name() != "":
+		// a named slice or map type can be its own element type: refer to it by name
+		typeName = g.generateTypeName(t)
+	case kind == reflect.Slice:
 		ref := g.generateCycleSchemaRef(t.Elem(), schema)
 		sliceSchema := openapi3.NewSchema()
 		sliceSchema.Type = &openapi3.Types{"array"}
 		sliceSchema.Items = ref
 		return openapi3.NewSchemaRef("", sliceSchema)
-	case reflect.Map:
+	case kind == reflect.Map:
 		ref := g.generateCycleSchemaRef(t.Elem(), schema)
 		mapSchema := openapi3.NewSchema()
 		mapSchema.Type = &openapi3.Types{"object"}
